@@ -10,9 +10,13 @@ import EgoVerif.C29.Model
    flush    <self> <cluster|-> <db> <hook> <on> <accept> <tok|-> <wf> <cache> <hops> <rows|->
         → status=<401|400|200> disc=<0|1> fire=<0|1> msgs=<…>      (through the router: routeFlush)
 
-   rows = id:name:active:live,…   `live` = the peer's HTTP endpoint records what it receives; a request to
-   a dead peer is sent by the model but cannot be observed, so it is left out of the answer.
-   Within one purge the requests are listed by ascending destination id (the real order is `joined_at`). -/
+   rows = id:name:active:beh,…   in join order (`joined_at`, the order BroadcastCacheFlush walks). `beh` is what
+   the peer's HTTP endpoint does: ok | <status> (answers that status) | hangup | dead (nobody listens) |
+   hold<ms> (receives the request, answers 200 after <ms> milliseconds — later than the sender's 5 s timeout
+   when <ms> > 5000). The answer lists the requests the peers RECEIVE (`receivedOf` of `purgeNodeWith`): a
+   request to a dead port is sent by the model but cannot be observed; a slow, failing or hanging-up peer
+   receives its request and changes nothing for the others.
+   Within one purge the requests are listed by ascending destination id. -/
 namespace EgoVerif.C29
 
 def optNat (s : String) : Option (Option Nat) :=
@@ -21,15 +25,29 @@ def optNat (s : String) : Option (Option Nat) :=
 def bit (s : String) : Option Bool :=
   if s == "1" then some true else if s == "0" then some false else none
 
-def parseRow (s : String) : Option (Row × Bool) :=
+def parseBeh (s : String) : Option PeerBeh :=
+  if s == "ok" then some (.answers 200 0)
+  else if s == "hangup" then some .hangsUp
+  else if s == "dead" then some .unreachable
+  else match s.toList with
+    | 'h' :: 'o' :: 'l' :: 'd' :: ms => (String.ofList ms).toNat?.map (fun ms => .answers 200 ms)
+    | _ => s.toNat?.map (fun st => .answers st 0)
+
+def parseRow (s : String) : Option (Row × PeerBeh) :=
   match s.splitOn ":" with
-  | [i, n, a, l] =>
-    match i.toNat?, n.toNat?, bit a, bit l with
-    | some i, some n, some a, some l => some ({ id := i, name := n, active := a }, l)
+  | [i, n, a, b] =>
+    match i.toNat?, n.toNat?, bit a, parseBeh b with
+    | some i, some n, some a, some b => some ({ id := i, name := n, active := a }, b)
     | _, _, _, _ => none
   | _ => none
 
-def parseRows (s : String) : Option (List (Row × Bool)) :=
+/-- the behaviour of the endpoint a row points at (rows the table does not have are never addressed) -/
+def behOf (rows : List (Row × PeerBeh)) (id : Nat) : PeerBeh :=
+  match rows.find? (fun r => r.1.id == id) with
+  | some r => r.2
+  | none => .unreachable
+
+def parseRows (s : String) : Option (List (Row × PeerBeh)) :=
   if s == "-" then some [] else (s.splitOn ",").mapM parseRow
 
 def parseInts (s : String) : Option (List Int) :=
@@ -50,10 +68,13 @@ def showOpt : Option Nat → String
 def showMsg (m : Msg) : String :=
   s!"{m.dest}:{m.cache}:{m.sender}:{m.hops}:{showOpt m.tok}:{b01 m.accept}"
 
-/-- the requests an observer at the live peers sees, by ascending destination -/
-def observed (rows : List (Row × Bool)) (ms : List Msg) : List Msg :=
-  let live := fun (m : Msg) => rows.any (fun r => r.1.id == m.dest && r.2)
-  sortBy (fun a b => a.dest < b.dest) (ms.filter live)
+/-- the requests an observer at the peers sees, by ascending destination -/
+def observed (sends : List (Msg × SendResult)) : List Msg :=
+  sortBy (fun a b => a.dest < b.dest) (receivedOf sends)
+
+/-- requests sent outside a purge (none, by C29_no_rebroadcast): each meets the endpoint its row points at -/
+def observedMsgs (rows : List (Row × PeerBeh)) (ms : List Msg) : List Msg :=
+  observed (ms.map (fun m => (m, sendResult (behOf rows m.dest))))
 
 def showMsgs (ms : List Msg) : String :=
   if ms.isEmpty then "-" else ",".intercalate (ms.map showMsg)
@@ -70,14 +91,14 @@ def handle (line : String) : String :=
   | ["purge", self, cl, db, hook, on, notify, cache, rows] =>
     match self.toNat?, optNat cl, bit db, bit hook, bit on, bit notify, cache.toInt?, parseRows rows with
     | some self, some cl, some db, some hook, some on, some notify, some c, some rows =>
-      let r := purgeNode self cl db hook on notify (rows.map (·.1)) c none
-      s!"disc={b01 r.1} fire={b01 r.2.1} msgs={showMsgs (observed rows r.2.2)}"
+      let r := purgeNodeWith self cl db hook on notify (rows.map (·.1)) (behOf rows) c none
+      s!"disc={b01 r.1} fire={b01 r.2.1} msgs={showMsgs (observed r.2.2)}"
     | _, _, _, _, _, _, _, _ => "bad-input"
   | ["purgeall", self, cl, db, hook, on, caches, rows] =>
     match self.toNat?, optNat cl, bit db, bit hook, bit on, parseInts caches, parseRows rows with
     | some self, some cl, some db, some hook, some on, some cs, some rows =>
       let cs := sortBy (fun a b => a < b) cs
-      let ms := cs.flatMap (fun c => observed rows (purgeAllNode self cl db hook on (rows.map (·.1)) [c]))
+      let ms := cs.flatMap (fun c => observedMsgs rows (purgeAllNode self cl db hook on (rows.map (·.1)) [c]))
       s!"msgs={showMsgs ms}"
     | _, _, _, _, _, _, _ => "bad-input"
   | ["flush", self, cl, db, hook, on, acc, tok, wf, cache, hops, rows] =>
@@ -87,7 +108,7 @@ def handle (line : String) : String :=
       let m : Msg := { dest := self, cache := c, sender := 0, hops := h, tok := tok, wf := wf, accept := acc,
                        pid := none }
       let r := routeFlush self cl db hook on (rows.map (·.1)) m
-      s!"status={showResp r.1} disc={b01 r.2.1} fire={b01 r.2.2.1} msgs={showMsgs (observed rows r.2.2.2)}"
+      s!"status={showResp r.1} disc={b01 r.2.1} fire={b01 r.2.2.1} msgs={showMsgs (observedMsgs rows r.2.2.2)}"
     | _, _, _, _, _, _, _, _, _, _, _ => "bad-input"
   | _ => "bad-op"
 
